@@ -83,18 +83,30 @@ INFMT = {"ymd": "%F", "ymcw": "%Y-%m-%c-%w", "ywd": "%G-W%V-%u", "yd": "%Y-%j", 
 OUTKEY = {"ymd": "F", "ymcw": "ymcw", "ywd": "ywd", "yd": "yd", "ldn": "ldn", "mdn": "mdn", "jdn": "jdn"}
 
 
-def validate_and_report(rep, module, cfg, execs, keyfn, label):
+def validate_and_report(rep, module, cfg, execs, keyfn, label, group=None, per_group_reject=6):
+    """validate executions by TLC; with `group` (execution -> class name) every class is validated on its own and
+    stops after per_group_reject rejections, so that one failing class neither hides nor starves the others"""
     if not execs:
         return
-    nval, rejected, st = core.validate_batches(module, cfg, execs)
-    rep.cov["states"] += st
-    rep.cov["transitions"] += st
-    rep.count(traces=nval, evaluations=len(execs), distinct=len(execs))
-    for ei, pos, ex in rejected:
-        bad = ex[pos] if pos < len(ex) else {}
-        rep.disagree(keyfn(bad, ex), {"execution_head": ex[:2], "rejected_event": bad, "index": pos})
+    groups = {}
+    if group is None:
+        groups[""] = execs
+    else:
+        for ex in execs:
+            groups.setdefault(group(ex), []).append(ex)
+    tot_val = tot_rej = 0
+    for g, exs in sorted(groups.items()):
+        nval, rejected, st = core.validate_batches(module, cfg, exs, max_reject=50 if group is None else per_group_reject)
+        rep.cov["states"] += st
+        rep.cov["transitions"] += st
+        rep.count(traces=nval, evaluations=len(exs), distinct=len(exs))
+        tot_val += nval
+        tot_rej += len(rejected)
+        for ei, pos, ex in rejected:
+            bad = ex[pos] if pos < len(ex) else {}
+            rep.disagree(keyfn(bad, ex), {"execution_head": ex[:2], "rejected_event": bad, "index": pos})
     rep.sample({label: execs[len(execs) // 2][:3]})
-    core.log("%s: %d executions validated, %d rejected" % (label, nval, len(rejected)))
+    core.log("%s: %d executions validated, %d rejected (%d classes)" % (label, tot_val, tot_rej, len(groups)))
 
 
 def datearith_behaviours(rep, cfg="DateArith.cfg", timeout=1500):
